@@ -652,11 +652,11 @@ func runBox(c BoxCase, o *vh.Obs) *vh.Failure {
 // ----------------------------------------------------------------
 
 func TestC17(t *testing.T) {
-	vh.Drive(t, vh.Spec[QuatCase]{Name: "quat", Quick: 40000, Thorough: 1000000, Gen: genQuat, Run: runQuat})
-	vh.Drive(t, vh.Spec[RotToCase]{Name: "rotationto", Quick: 40000, Thorough: 1000000, Gen: genRotTo, Run: runRotTo})
-	vh.Drive(t, vh.Spec[MatCase]{Name: "matrix", Quick: 40000, Thorough: 1000000, Gen: genMat, Run: runMat})
-	vh.Drive(t, vh.Spec[TRSCase]{Name: "trs", Quick: 24000, Thorough: 600000, Gen: genTRS, Run: runTRS})
-	vh.Drive(t, vh.Spec[BoxCase]{Name: "box", Quick: 24000, Thorough: 600000, Gen: genBox, Run: runBox})
+	vh.Drive(t, vh.Spec[QuatCase]{Name: "quat", Quick: 300000, Thorough: 1000000, Gen: genQuat, Run: runQuat})
+	vh.Drive(t, vh.Spec[RotToCase]{Name: "rotationto", Quick: 300000, Thorough: 1000000, Gen: genRotTo, Run: runRotTo})
+	vh.Drive(t, vh.Spec[MatCase]{Name: "matrix", Quick: 300000, Thorough: 1000000, Gen: genMat, Run: runMat})
+	vh.Drive(t, vh.Spec[TRSCase]{Name: "trs", Quick: 150000, Thorough: 600000, Gen: genTRS, Run: runTRS})
+	vh.Drive(t, vh.Spec[BoxCase]{Name: "box", Quick: 150000, Thorough: 600000, Gen: genBox, Run: runBox})
 	var basis []BasisCase
 	for i := 0; i < 16; i++ {
 		for j := 0; j < 16; j++ {
